@@ -23,7 +23,9 @@ LEAN_TARGETS = ["ButlerModel.Props.C01", "driver"]
 
 STRINGS = ["", " ", "yes", "no", "null", "~", "1e3", "0x10", "1_000", "a: b", "- x", "#c", "a\nb", "é", "\t", "'", '"', "{}", "[]",
            "2001-01-01", "12:30:00", "NaN", ".inf", "true", "0", "007", "a b", "a_b", "a/b", "line1\n  line2\n", "x" * 200, "%s", "\\n", "&a", "*a",
-           "!!python/object:os.system", "? k", "|", ">", "@", "`"]
+           "!!python/object:os.system", "? k", "|", ">", "@", "`",
+           # line-break-like and invisible code points, controls, astral plane
+           "a\x85b", "a\u2028b", "a\u2029b", "\ufeffa", "a\xa0b", "a\rb", "a\r\nb", "\x7f", "\x1b[0m", "\U0001f600", "a\x0bb", "a\x0cb", "\x85"]
 FILTERS = ["a b", "a_b", "a/b", "a.b", "A B", "ab", "a  b", "a__b", "x", "x ", " x", "r", "g"]
 
 
@@ -253,7 +255,7 @@ def histories(ctx, tmp, cfgname, req, impl):
                 sref = src.put(obj, src_types["tdict"], instrument="I", detector=det)
                 b.transfer_from(src, [sref], transfer="copy", register_dataset_types=False)
                 new = (sref, copy.deepcopy(obj), f"transfer {det}")
-            elif r < 0.70:
+            elif r < 0.66:
                 cand = [i for i in stored if refs[i].datasetType.name != "tfilt" or True]
                 i = rng.choice(cand)
                 try:
@@ -261,6 +263,41 @@ def histories(ctx, tmp, cfgname, req, impl):
                     ops.append(f"associate {i}")
                 except Exception as e:
                     ops.append(f"associate {i} refused {type(e).__name__}")
+            elif r < 0.70:
+                # storing again under the resolved ref of a dataset that is still stored: must be refused and change nothing
+                cand = [i for i in stored if refs[i].datasetType.name in ("tdict", "tfilt")]
+                if not cand:
+                    continue
+                i = rng.choice(cand)
+                try:
+                    b.put({"second": "writer"}, refs[i])
+                    ops.append(f"re-put {i} accepted")
+                    viol(f"[{cfgname}] after {ops[-3:]}: a second put under the resolved ref of stored dataset {i} was accepted",
+                         f"reput-accepted:{cfgname}", {"kind": "history", "config": cfgname, "ops": ops, "dataset": i})
+                except Exception as e:
+                    ops.append(f"re-put {i} refused {type(e).__name__}")
+            elif r < 0.76 and cfgname != "inmem":
+                # zip ingest: several datasets in one artifact
+                k = rng.choice([2, 3])
+                zr = []
+                for _ in range(k):
+                    det += 1
+                    obj = gen_dict(rng, 2)
+                    zr.append((src.put(obj, src_types["tdict"], instrument="I", detector=det, run="srcrun"), copy.deepcopy(obj)))
+                z = src.retrieve_artifacts_zip([x[0] for x in zr], ext)
+                b.ingest_zip(z, transfer="copy")
+                os.remove(z.ospath)
+                for sref, keep in zr[:-1]:
+                    gid += 1
+                    refs[gid], truth[gid] = sref, keep
+                    ident[gid] = (sref.datasetType.name, tuple(sorted(sref.dataId.required.items())), sref.run, sref.id)
+                    live.add(gid)
+                    mid[gid] = gid
+                    if mirrored:
+                        p = str(b.getURI(sref))
+                        c = contentno.setdefault(repr(canon(keep)), len(contentno) + 1)
+                        req.append(f"st put {gid} {pathno.setdefault(p, len(pathno) + 1)} {c} 0"), impl.append("ok")
+                new = (zr[-1][0], zr[-1][1], f"ingest-zip {k}")
             elif r < 0.92:
                 ids = rng.sample(stored, min(len(stored), rng.choice([1, 1, 2])))
                 purge = rng.random() < 0.6
@@ -298,9 +335,10 @@ def histories(ctx, tmp, cfgname, req, impl):
                 mid[i] = i
                 ops.append(f"{text} -> {i}")
                 if mirrored:
-                    p = b.getURI(ref).ospath
+                    u = b.getURI(ref)
+                    p = str(u) if u.fragment else u.ospath  # a zip member is its own "file": path#zip-path=member
                     c = contentno.setdefault(repr(canon(keep)), len(contentno) + 1)
-                    req.append(f"st put {i} {pathno.setdefault(p, len(pathno) + 1)} {c} {os.path.getsize(p)}"), impl.append("ok")
+                    req.append(f"st put {i} {pathno.setdefault(p, len(pathno) + 1)} {c} {0 if u.fragment else os.path.getsize(p)}"), impl.append("ok")
             ctx.evaluations += 1
             ctx.count(f"{cfgname}:{ops[-1].split()[0]}")
             # ---------------------------------------------------------- read everything back
